@@ -60,7 +60,8 @@ pub fn try_sign_file(data: &str) -> Option<String> {
 pub fn is_valid_signature(data: &str) -> bool {
     if let Some(mat) = RE.find(data) {
         let actual = &data[mat.start() + 25..mat.end() - 2];
-        let unsigned = RE.replace(data, SIGNING_TOKEN);
+        // `sign` replaces every token, so every signature has to be restored.
+        let unsigned = RE.replace_all(data, SIGNING_TOKEN);
         return hash(&unsigned) == actual;
     }
     false
